@@ -1,7 +1,7 @@
 ----------------------- MODULE RoundedFormatMachine -----------------------
 (* The bounded generator machine over RoundedFormat: one step per (cell, rounding mode); laws on the printed text. *)
 EXTENDS RoundedFormat
-CONSTANTS RTimes, RDates, RInstants, RPrecs, RZones
+CONSTANTS RTimes, RDates, RInstants, RPrecs, RZones, RDurs
 VARIABLES cell, last
 vars == <<cell, last>>
 None == [op |-> "none"]
@@ -9,6 +9,7 @@ None == [op |-> "none"]
 Cells == {[ty |-> "PlainTime", t |-> t, p |-> p] : t \in RTimes, p \in RPrecs}
          \cup {[ty |-> "PlainDateTime", d |-> d, t |-> t, p |-> p] : d \in RDates, t \in RTimes, p \in RPrecs}
          \cup {[ty |-> "Instant", i |-> i, p |-> p] : i \in RInstants, p \in RPrecs}
+         \cup {[ty |-> "Duration", D |-> D, p |-> p] : D \in RDurs, p \in RPrecs}
          \cup {[ty |-> "ZonedDateTime", i |-> i, tz |-> z, p |-> p] : i \in RInstants, z \in RZones, p \in RPrecs}
 
 Init == cell \in Cells /\ last = None
